@@ -112,6 +112,11 @@ static void do_call(actx *c, vrng *r, int a)
             if (k == 2 && nn >= 2) { uint8_t *t = (uint8_t *)malloc(nn); memcpy(t, c->doc0.p, nn); t[nn - 1] = c->doc0.p[c->doc0.n - 1]; set_input(c, t, nn); free(t); }
             else set_input(c, c->doc0.p, nn);
         } else if (k == 3) { uint8_t t[2] = { (uint8_t)(0x40 + vrn(r, 4)), (uint8_t)(0x40 + vrn(r, 4)) }; set_input(c, t, vrn(r, 3)); }
+        else if (k == 4 && c->n > 2) {
+            /* the next message arrived in the very same buffer: content changes in place, same address and length */
+            size_t at = 1 + vrn(r, (uint32_t)c->n - 2);
+            c->buf[at] = c->pristine[at] = (uint8_t)(c->buf[at] ^ (1u << vrn(r, 8)));
+        }
         ret = (a == A_INIT_OBJ) ? binson_parser_init_object(p, c->buf, c->n) : binson_parser_init_array(p, c->buf, c->n);
         c->sp = 0; c->inited_ok = ret;
         vb_printf(&c->trace, "[%zu bytes]", c->n);
